@@ -161,6 +161,23 @@ class AxisChecker:
         """Roles of local names without a seed role, from single consistent
         assignments; local vector names from comprehensions over vectors."""
         self.local_vec = {}
+        # three names unpacked together that differ in exactly one letter,
+        # and that letter runs over x, y, z (bz, by, bx = ...): a local
+        # spelling of the naming convention
+        for n in walk_local(self.fn.node):
+            if isinstance(n, (ast.Tuple, ast.List)) and len(n.elts) == 3 and \
+                    isinstance(n.ctx, ast.Store) and \
+                    all(isinstance(e, ast.Name) for e in n.elts):
+                ids = [e.id for e in n.elts]
+                if any(seed_role(i) for i in ids) or \
+                        len({len(i) for i in ids}) != 1 or len(ids[0]) < 2:
+                    continue
+                diff = [k for k in range(len(ids[0]))
+                        if len({i[k] for i in ids}) > 1]
+                if len(diff) == 1 and \
+                        {i[diff[0]] for i in ids} == {"x", "y", "z"}:
+                    for i in ids:
+                        self.inferred.setdefault(i, i[diff[0]].upper())
         for _ in range(3):
             for name, ds in self.defs.items():
                 if seed_role(name) or name in self.inferred:
@@ -449,7 +466,7 @@ class AxisChecker:
             elif isinstance(t, (ast.Tuple, ast.List)):
                 names = [e.id if isinstance(e, ast.Name) else None
                          for e in t.elts]
-                troles = [seed_role(n) if n else None for n in names]
+                troles = [self.name_role(n) if n else None for n in names]
                 order = self.vec_order(val)
                 if order and len(order) == len(names):
                     want = list(order)
